@@ -64,6 +64,8 @@ def c01(ctx):
     ctx.add(obs)
     ctx.rep.extra["partial_functions"] = summ
     ctx.add(copiers_wired(fx))
+    ctx.add(p_gate.extents_forwarded(fx))
+    ctx.add([o for o in p_gate.helpers_always_apply(fx) if "allocate_file" in o.key])
     data_sinks = ("copy_file_bytes", "copy_file_offset", "try_copy_file_range", "copy_file_range", "copy_bytes_uspace",
                   "copy_range_uspace", "read_bytes", "write_bytes", "pread", "pwrite", "Read::read", "write_all",
                   "allocate_file", "ftruncate", "File::open", "File::create", "CopyHandle", "next_sparse_segments", "reflink", "ioctl")
@@ -79,6 +81,9 @@ def c05(ctx):
     ctx.add(obs)
     ctx.rep.extra["partial_functions"] = {"A": summ}
     ctx.add(fallback_consumers(fx))
+    b = fx.fn(PB_QFB)
+    if b is not None:
+        ctx.add([o for o in p_kinds.parblock_ranges(fx, b) if "no-extents" in o.key or "ANCHOR" in o.key])
     ctx.add([o for o in r_err.run(fx, crates=("libfs",))])
     ctx.add([o for o in r_err.run(fx, crates=("libxcp",)) if o.fn in (COPY_BYTES, COPY_SPARSE, COPY_FILE, TRY_REFLINK,
                                                                       PB_QFB, PB_QFR, PB_QFR + "::{closure#0}")])
